@@ -81,4 +81,28 @@ PROPS = {
         "trusted_base": KERNEL + TIE + ["time.Time arithmetic modelled as Int nanoseconds; UTC midnight = floor to 86400 s"],
         "assumptions": ["time zone offsets in the log do not exist in TrackAddict's 'UTC Time' column (Unix seconds)"],
     },
+    "C04": {
+        "props": "TrackVerif.GP.PropsC04",
+        "streams": [("GP", 2500, 40000)],
+        "clauses": ["gp.name_shape", "gp.validate", "gp.grouping", "gp.process", "gp.no_crash"],
+        "rule": "PRNG(seed): 10% direct Match calls (documented names, near misses with one character replaced, mixed case, non-ASCII look-alikes), 10% FileSlice.Validate on "
+                "chapter lists with gaps/duplicates/odd starts, 10% argument lists, 70% whole Process runs on listings drawn from a name universe mixing both conventions, gaps, "
+                "GH/GX duplicates, look-alikes and directories (a sub-directory answers ReadDir with a valid name and records the access); the visiting order of the groups is read "
+                "from the processor's own debug log and handed to the model; non-trivial = a name that matches / a list of >= 2 chapters / a run with >= 1 encoder start",
+        "trusted_base": KERNEL + TIE + ["regexp engine: for an anchored fixed-length sequence of rune classes FindStringSubmatch is position-wise membership (patterns are parsed by regexp/syntax in the translator; any other shape fails extraction)",
+                                        "fs.WalkDir visits the root's entries in name order and prunes directories on SkipDir; sort.Sort on distinct chapters"],
+        "assumptions": ["Go map iteration order is observed, not forced; the all-orders claim is the theorem only_valid_joined / invalid_stops"],
+    },
+    "C05": {
+        "props": "TrackVerif.GP.PropsC05",
+        "streams": [("GP", 2500, 40000)],
+        "clauses": ["gp.at_most_once", "gp.no_clobber", "gp.argv_shape", "gp.temp_gone", "gp.sources_intact", "gp.listed_are_outputs", "gp.input_slot", "gp.process", "gp.no_crash"],
+        "rule": "as C04; configs vary overwrite, skip lists, output dir in {'', '.', other}, five templates (incl. one constant name shared by all groups), five argument lists with -i \"\" at different "
+                "positions; pre-existing outputs; half of the runs inject one failing operation (stat, readdir, temp create, temp write, close, encoder run, chtimes) at a random position; "
+                "corpus: one scenario with EVERY single failing operation position 0..21 enumerated; recording in-memory filesystem installed through the verif hook",
+        "trusted_base": KERNEL + TIE + ["OS filesystem modelled as a map path -> mtime with one injected failing operation; Remove never fails (outside the property's fault list)",
+                                        "html/template on {{.Name}}/{{.Ext}}/literal text is plain substitution for [A-Za-z0-9._-] data",
+                                        "hook pkg/gopro/verif_hooks.go (build tag verif) installs the recording filesystem"],
+        "assumptions": ["theorems quantify over every fault position (fs.fault arbitrary) and every initial filesystem; at most one injected fault per run"],
+    },
 }
